@@ -196,6 +196,8 @@ def is_printable_type(t):
 # --------------------------------------------------------------------------- type cases
 
 CRAFTED_TYPES = [
+    # unions nested three levels deep (a union inside a member of a union inside a member of a union)
+    "(multi (arr (multi (arr (multi int float)) string)) bool)", "(multi (fun () (multi (fun () (multi int float)) string)) bool)", "(mut (multi (arr (multi (arr (multi int float)) string)) bool))", "(multi (tup (multi (tup (multi int float) int) string) int) bool)", "(multi (arr (multi (struct (a (multi int float)) (b (multi string bool))) string)) bool)", "(arr (multi (arr (multi (arr (multi int float)) string)) bool))", "(multi (mut (multi (mut (multi int float)) string)) bool)", "(fun ((multi (arr (multi (arr (multi int float)) string)) bool)) (multi (arr (multi (arr (multi int float)) string)) bool))",
     "(fun () (multi int float))", "(fun ((multi int float)) int)", "(fun ((multi int float) string) (multi bool void))",
     "(mut (multi int float))", "(arr (multi int float))", "(tup (multi int float) string)",
     "(struct (a (multi int float)))", "(multi (mut int) float)", "(multi (fun () int) float)",
@@ -509,6 +511,17 @@ def value_cases(rnd, tier):
             out.append((v, set() if shown else {"deep"}))
             v = nest("tup", leaf, levels)
             out.append((v, {"tuple"} if shown else {"tuple", "deep"}))
+    # width: long arrays and tuples (in the language a literal may have any number of elements), at top
+    # level and nested, with elements of every scalar kind
+    for n in (5, 6, 7, 63, 64, 65, 66, 100, 257, 1000):
+        ints = " ".join(f"(i {k})" for k in range(n))
+        out.append((f"(arr {ints})", set()))
+        out.append((f"(arr (arr {ints}) (arr))", set()))
+        out.append((f"(tup {ints})", {"tuple"}))
+        out.append(("(arr " + " ".join('(s "x")' for _ in range(n)) + ")", set()))
+        out.append(("(arr " + " ".join("(arr)" for _ in range(n)) + ")", set()))
+        out.append(("(arr " + " ".join("(f %d)" % fbits(0.5) for _ in range(n)) + ")", set()))
+        out.append((sx_val_str("ab" * n), set()))
     n_rand = 40000 if tier == "thorough" else 4000
     for i in range(n_rand):
         out.append(random_value(rnd, 1 + i % 5, special=(i % 4 == 0), tuples=(i % 2 == 0)))
